@@ -195,7 +195,7 @@ CLAIMS = {
                 "index, the xeger draw of each attempt) as explicit arguments and follows the overlay / truncation / retry loop. "
                 "Proved for every value of those arguments: C13_valid (IBAN.random never returns an ISO-invalid IBAN), C13_country "
                 "(the requested country), C13_errors (BBAN.random's only library errors are the documented overflow error or an "
-                "unknown country), C13_pins / C13_iban_pins (with clean pins and draws, in a country with positions: the BBAN has "
+                "unknown country), C13_library_errors_only (no foreign exception, for clean pins and draws), C13_pins / C13_iban_pins (with clean pins and draws, in a country with positions: the BBAN has "
                 "the country's length, is clean text, and every pinned component of its field's width other than the computed "
                 "check-digit field is read back unchanged) - the exact side conditions are the three open findings' complements. "
                 "Not proved: that a BBAN.random result conforms to the structure classes at filler positions, and the listed-bank "
